@@ -108,6 +108,19 @@ static void on_delete(struct json_object *jso, void *userdata)
 	ncb++;
 }
 
+/* format strings handed to json_object_double_to_json_string as userdata ("setserd"): owned by the node, released
+ * through on_delete_fmt, which logs the slot number as the token */
+static char fmts[64][8];
+static void on_delete_fmt(struct json_object *jso, void *userdata)
+{
+	if (ncb >= MAXEV)
+		return;
+	cb_id[ncb] = find_id(jso);
+	cb_tok[ncb] = (long)(((char *)userdata - &fmts[0][0]) / 8);
+	cb_final[ncb] = (jso->_ref_count == 0);
+	ncb++;
+}
+
 static int reg(struct json_object *o)
 {
 	int id = nextid++;
@@ -207,7 +220,10 @@ static void show(long ret, int made)
 		first = 0;
 		printf("%d:%u:u", id, (unsigned)o->_ref_count);
 		if (o->_user_delete)
-			printf("%ld", (long)(uintptr_t)o->_userdata - 1);
+			if ((char *)o->_userdata >= &fmts[0][0] && (char *)o->_userdata < &fmts[0][0] + sizeof(fmts))
+				printf("%ld", (long)(((char *)o->_userdata - &fmts[0][0]) / 8));
+			else
+				printf("%ld", (long)(uintptr_t)o->_userdata - 1);
 		else
 			putchar('-');
 		putchar(':');
@@ -479,6 +495,18 @@ int main(void)
 			void *ud = (void *)(uintptr_t)(strtol(W[2], NULL, 10) + 1);
 			counting = 1;
 			json_object_set_serializer(o, json_object_userdata_to_json_string, ud, on_delete);
+			counting = 0;
+			show(0, -1);
+		}
+		else if (NW == 3 && !strcmp(W[0], "setserd"))
+		{
+			/* the library's own double serializer with a format string the node owns (userdata + delete callback) */
+			struct json_object *o = node(W[1], &ok);
+			long t = strtol(W[2], NULL, 10);
+			if (!ok || json_object_get_type(o) != json_type_double || t < 0 || t >= 64) { puts("harness: bad operand"); continue; }
+			strcpy(fmts[t], "%.2f");
+			counting = 1;
+			json_object_set_serializer(o, json_object_double_to_json_string, fmts[t], on_delete_fmt);
 			counting = 0;
 			show(0, -1);
 		}
